@@ -519,6 +519,29 @@ def _normalise(num: Poly, den: Poly) -> Tuple[Poly, Poly]:
         cd = p_is_const(den)
         if cd is not None:
             return p_scale(num, 1 / cd), {(): Fraction(1)}
+    # abs(P)/abs(A) -> abs(P/A), sqrt(P)/sqrt(A) -> sqrt(P/A) when the division is exact
+    if len(num) == 1 and len(den) == 1:
+        (nm, nc), = num.items()
+        (dm, dc), = den.items()
+        for kind in ("abs", "sqrt"):
+            an = [(a, e) for a, e in nm if a.kind == "fn" and a.name == kind and e == 1]
+            ad = [(a, e) for a, e in dm if a.kind == "fn" and a.name == kind and e == 1]
+            if len(an) == 1 and len(ad) == 1:
+                Pn, Pd = an[0][0].args[0], ad[0][0].args[0]
+                if p_is_const(Pn.den) is not None and p_is_const(Pd.den) is not None:
+                    fn = f_abs if kind == "abs" else f_sqrt
+                    q = p_try_divide(Pn.num, Pd.num)
+                    rest_n = Rat({tuple(x for x in nm if x[0] is not an[0][0]): nc}, None, _normal=True)
+                    rest_d = Rat({tuple(x for x in dm if x[0] is not ad[0][0]): dc}, None, _normal=True)
+                    if q is not None:
+                        scale = Rat.const(1 / (p_is_const(Pn.den) / p_is_const(Pd.den)))
+                        r = rest_n.mul(fn(Rat(q).mul(scale))).div(rest_d)
+                        return r.num, r.den
+                    q = p_try_divide(Pd.num, Pn.num)
+                    if q is not None:
+                        scale = Rat.const(1 / (p_is_const(Pd.den) / p_is_const(Pn.den)))
+                        r = rest_n.div(rest_d.mul(fn(Rat(q).mul(scale))))
+                        return r.num, r.den
     # exact division in either direction
     if len(den) > 1:
         q = p_try_divide(num, den)
